@@ -182,6 +182,12 @@ def d3_window_rules(ctx):
             v = fa.val_operand(t["args"][5], (bb, len(hup.blocks[bb]["stmts"])))
             ok = is_call(v, name_contains="::is_classic") and any(is_field(x, "mode") for x in walk(v))
             ctx.chk.ob("D3", "classic flag = config_snap.mode.is_classic()", ok, "argument %s" % show(v, hup.names), key="D3:classic-flag-origin", loc=t.get("loc"))
+    connected_implies_received(ctx, "D3")
+
+
+def connected_implies_received(ctx, rule):
+    """Representation invariant of the liveness test: connected => last_received.is_some().  (is_timed_out of a connected link is
+    `last_received is Some & now - last_received >= timeout`: a connected link without a receive stamp can never time out.)"""
     # paired stores: connected => last_received.is_some()
     eff = ctx.eff
     n_true = 0
@@ -194,9 +200,9 @@ def d3_window_rules(ctx):
             lr = [(b, i, s) for (b, i, s) in field_stores(a.fn, CONN, "last_received") if cfg.postdominates(b, a.bb) or b == a.bb]
             fa = ctx.fa(a.fn)
             some = [1 for (b, i, s) in lr if fa.val_rvalue(s["rv"], (b, i))[0] == "agg" and fa.val_rvalue(s["rv"], (b, i))[2].endswith("::Some")]
-            ctx.chk.ob("D3", "connected := true is followed by last_received := Some(..) (%s)" % sname(a.fn.stable), bool(some), "",
-                       key="D3:connected-implies-received:%s" % a.fn.stable, loc=a.loc)
-    ctx.chk.floor("D3", "connected := true stores", n_true, 1)
+            ctx.chk.ob(rule, "connected := true is followed by last_received := Some(..) (%s)" % sname(a.fn.stable), bool(some), "",
+                       key="%s:connected-implies-received:%s" % (rule, a.fn.stable), loc=a.loc)
+    ctx.chk.floor(rule, "connected := true stores", n_true, 1)
     for a in eff.writers_of(CONN, "last_received", ("store",), include_inner=False):
         fa = ctx.fa(a.fn)
         stt = a.fn.blocks[a.bb]["stmts"][a.si]
@@ -207,8 +213,8 @@ def d3_window_rules(ctx):
             direct = [1 for (b, i, s) in field_stores(a.fn, CONN, "connected") if s["rv"]["k"] == "use" and s["rv"]["o"].get("val") is False and
                       (cfg.dominates(b, a.bb) or cfg.postdominates(b, a.bb) or b == a.bb)]
             via = [1 for (b, t) in calls_to(a.fn, stable=CONN + "::reset_core_state") if cfg.postdominates(b, a.bb) or cfg.dominates(b, a.bb)]
-            ctx.chk.ob("D3", "last_received := None comes with connected := false (%s)" % sname(a.fn.stable), bool(direct or via), "",
-                       key="D3:none-received-implies-disconnected:%s" % a.fn.stable, loc=a.loc)
+            ctx.chk.ob(rule, "last_received := None comes with connected := false (%s)" % sname(a.fn.stable), bool(direct or via), "",
+                       key="%s:none-received-implies-disconnected:%s" % (rule, a.fn.stable), loc=a.loc)
 
 
 def d3b_per_packet_order(ctx):
